@@ -112,7 +112,7 @@ def cases(ctx):
         for ki in range(5):
             yield ("default", sel, ki)
     yield ("published",)
-    for kind in ("zero", "y+1", "y-1", "x+1", "x>=p", "y>=p", "secp256k1", "negated-ok"):
+    for kind in ("zero", "y+1", "y-1", "x+1", "x>=p", "y>=p", "secp256k1", "negated-ok", "x+p-congruent", "x+p-congruent-2", "small-x-ok"):
         yield ("reject", kind, 0)
     for i in range(32):
         yield ("reject", "random", i)
@@ -256,10 +256,21 @@ def run_case(ctx, case):
             y = 0x483ADA7726A3C4655DA4FBFC0E1108A8FD17B448A68554199C47D08FFB10D4B8
         elif what == "negated-ok":
             x, y = Q[0], p - Q[1]
+        elif what in ("x+p-congruent", "x+p-congruent-2", "small-x-ok"):
+            # a curve point with a tiny x (found by solving y^2 = x^3 + ax + b), so that x + p still fits into 32 bytes:
+            # X = x + p is out of range but congruent to a valid coordinate
+            xs = 1 if what != "x+p-congruent-2" else 200
+            while True:
+                rhs = (xs ** 3 + EC.P256.a * xs + EC.P256.b) % p
+                ys = pow(rhs, (p + 1) // 4, p)
+                if ys * ys % p == rhs:
+                    break
+                xs += 1
+            x, y = (xs, ys) if what == "small-x-ok" else (xs + p, ys)
         else:
             raw = ctx.sym("c09-rnd-%d" % i, 64)
             x, y = int.from_bytes(raw[:32], "big"), int.from_bytes(raw[32:], "big")
-        valid = EC.P256.on_curve((x, y)) and x < p and y < p
+        valid = x < p and y < p and EC.P256.on_curve((x, y))
         body = b"\x04" + x.to_bytes(32, "big") + y.to_bytes(32, "big") + bytes(16)
         try:
             EccDecryptor(0, FX.priv_key(d)).decrypt(body)
